@@ -50,6 +50,32 @@ def run(ctx):
             st = core.Stream("configurations: stdout=%s%s (junk entries with non-ASCII / lone surrogates; fixtures)" % (enc, ", only authentication imported" if only_auth else ""),
                              cfg, rel, must, lambda c, i, m: True, env={"PYTHONIOENCODING": enc}, only_auth=only_auth)
             core.run_stream(ctx, st)
+    # everything the library's own signing functions produce verifies under the corresponding public keys
+    import implrun
+    from gen import SEEDS
+    pls = [P, {"x": "é\ud800", "n": [1.5, None]}, "text", "12", "null", [1, [2]], {"signatures": {}, "signed": 1}]
+    scases = []
+    for pl in pls:
+        for sq in ([0], [0, 1], [1, 0, 1], [2, 1, 0]):
+            scases.append((wire.case("sign_sequence", pl, [SEEDS[i] for i in sq]), sorted(set(sq))))
+        for new in ({"edited": True}, pl):
+            for s1, s2 in (([0], [0]), ([0, 1], [1]), ([0], [1]), ([0, 1], [0, 1])):
+                scases.append((wire.case("sign_edit_sign", pl, [SEEDS[i] for i in s1], new, [SEEDS[i] for i in s2]), sorted(set(s2))))
+    souts = implrun.run_impl([w for w, _ in scases])
+    lib = []
+    for (w, fresh), (io, _) in zip(scases, souts):
+        if not io.startswith("O"):
+            ctx.violations.append(("property", {"stream": "library-made signatures", "case": w, "impl": io[:200], "reason": "the library's signing functions failed on a serializable payload: %s" % core.impl_class(io)}))
+            continue
+        env = wire.dec(io[1:])
+        lib.append({"w": wire.case("verify_signable", env, [PUBHEX[i] for i in fresh], len(fresh), False), "meta": {"s": "cfg", "must_accept": True}})
+        lib.append({"w": wire.case("verify_signable", env, [PUBHEX[i] for i in range(4)], len(fresh), False), "meta": {"s": "cfg", "must_accept": True}})
+
+    def must_lib(c, io):
+        if not io.startswith("O"):
+            return "an envelope just signed by the library (fresh signatures by %s key(s)) does not verify: %s" % (wire.dec(c["w"])[3], core.impl_class(io))
+        return None
+    core.run_stream(ctx, core.Stream("envelopes produced by wrap_as_signable / sign_signable (sequences, re-signing after an edit) verify under the signers' keys", lib, rel, must_lib))
     # warnings escalated to errors (python -W error): skipping an ignorable entry must not turn into an exception
     core.run_stream(ctx, core.Stream("configurations: PYTHONWARNINGS=error (junk entries; fixtures)", cfg, rel, must, lambda c, i, m: True, env={"PYTHONWARNINGS": "error"}))
     ctx.assumptions = ["completeness theorems take 'valid' as the primitive's verdict; OpenPGP headers below 4 GiB"]
